@@ -14,7 +14,7 @@ C20 model (L10): what `COPY … TO` / `COPY … FROM` do with a CSV file.
   record must have as many fields as the first one) and `CopyFromFileExecutor` (record length
   = column count, or one more with an empty last field; cell text parsed by `push_str`, the
   empty text being NULL).
-* cells: `ArrayImpl::get_to_string` (NULL ↦ the four letters `NULL`) / `push_str`.
+* cells: NULL ↦ empty field, otherwise `ArrayImpl::get_to_string` / `push_str` (empty text ↦ NULL).
 
 Bytes throughout (`csv` works on bytes; the `char as u8` casts of the options are part of the model's
 guards: ASCII options only).
@@ -160,7 +160,7 @@ def nullText : Bytes := [78, 85, 76, 76]
 
 /-- `ArrayImpl::get_to_string`; `none` when Display panics -/
 def cellText : Option DV → Option Bytes
-  | none => some nullText
+  | none => some []          -- NULL is an empty field since fix f651426 (was the letters `NULL`)
   | some (.bool b) => some (displayBool b)
   | some (.i16 v) | some (.i32 v) | some (.i64 v) => some (intDigits v)
   | some (.str s) => some s
